@@ -71,6 +71,34 @@ Theorem C11_one_hot_injective : forall n v w, (v < n)%nat -> (w < n)%nat -> oneh
 Proof. exact one_hot_injective. Qed.
 Print Assumptions C11_one_hot_injective.
 
+(* MultiDiscrete observations: per-dimension one-hot blocks concatenated in dimension order, each by value *)
+Theorem C11_onehot_concat_head : forall n ns v vs j, (j < n)%nat ->
+  nth j (onehot_concat (n :: ns) (v :: vs)) 0 = if Nat.eqb j v then 1 else 0.
+Proof. exact onehot_concat_head. Qed.
+Print Assumptions C11_onehot_concat_head.
+
+Theorem C11_onehot_concat_tail : forall n ns v vs j,
+  nth (n + j) (onehot_concat (n :: ns) (v :: vs)) 0 = nth j (onehot_concat ns vs) 0.
+Proof. exact onehot_concat_tail. Qed.
+Print Assumptions C11_onehot_concat_tail.
+
+Theorem C11_onehot_concat_length : forall nvec vals, length nvec = length vals ->
+  length (onehot_concat nvec vals) = fold_right Nat.add 0%nat nvec.
+Proof. exact onehot_concat_length. Qed.
+Print Assumptions C11_onehot_concat_length.
+
+(* a Box coordinate returned by predict(): unscale of the squashed low-level output (SAC / TD3 / DDPG actors, gSDE with
+   squash_output) or clip of the unsquashed one (PPO / A2C); inside the bounds in both cases (over Q: partial w.r.t. float32) *)
+Theorem C11_predict_value_in_bounds_partial : forall squash lo hi x,
+  (lo <= hi -> (squash = true -> -1 <= x <= 1) -> lo <= predict_value squash lo hi x <= hi)%Q.
+Proof. exact predict_value_in_bounds. Qed.
+Print Assumptions C11_predict_value_in_bounds_partial.
+
+Theorem C11_fragment_predict_value : forall squash lo hi x,
+  (predict_value squash lo hi x == if predict_squash_guard squash then predict_unscale lo hi x else predict_clip x lo hi)%Q.
+Proof. exact frag_predict_value. Qed.
+Print Assumptions C11_fragment_predict_value.
+
 (* ---- the model's predicates are the functions regenerated from utils.py / preprocessing.py / policies.py ---- *)
 Theorem C11_fragments_is_vectorized : forall o s img k,
   vec_box o s = is_vectorized (SBox s img) o /\
